@@ -47,6 +47,7 @@ func init() {
 			{ID: "C09-R21", Title: "the compiler does not write into the syntax tree (shared with C05-R13)", Floor: 1, Run: theCompilerDoesNotWriteIntoTheSyntaxTree},
 			{ID: "C09-R22", Title: "immutable values are not written by their methods (shared with C16-R22)", Floor: 50, Run: immutableValuesAreNotWrittenByTheirMethods},
 			{ID: "C09-R23", Title: "process-wide objects of the standard library are not configured", Floor: 1, Run: processWideObjectsAreNotConfigured},
+			{ID: "C09-R24", Title: "read-only operations do not write the container (shared with C16-R30)", Floor: 20, Run: readOnlyOperationsDoNotWriteTheContainer},
 		},
 	})
 }
